@@ -400,7 +400,7 @@ class Cube(object):
 # ---------------------------------------------------------------------------------------------
 # x86 prefix stacks: segment override x operand-size x address-size x F3/F2/LOCK x REX in front of the opcode families
 # whose meaning depends on the stack: string instructions (REP/REPE/REPNE), lockable read-modify-write instructions,
-# SSE opcodes whose 66/F2/F3 prefix is part of the opcode.  Stack order: segment, 66, 67, F3|F2|F0, REX (the decoder
+# SSE opcodes whose 66/F2/F3 prefix is part of the opcode.  Stack order: segment, 67, 66, F3|F2|F0, REX (the decoder
 # treats a 66/F2/F3 as "mandatory" only when it is the last legacy prefix).
 
 XS_SEG = [b"", b"\x64", b"\x2e", b"\x65", b"\x36", b"\x3e", b"\x26"]
@@ -424,7 +424,8 @@ XS_TAIL = bytes([0x10, 0x20, 0x30, 0x40, 0x50, 0x60, 0x70, 0x80])
 
 class X86Stack(object):
     """dims: seg, opsz, adsz, mand, rex (counts: truncations of the XS_* menus), ops (tuple of XS_OPS class names),
-    modrm (count).  Index order: stack (seg, opsz, adsz, mand, rex) major, then opcode, then ModRM form."""
+    modrm (count).  Index order: stack (seg, opsz, adsz, mand, rex as loops; bytes emitted seg 67 66 mand rex) major,
+    then opcode, then ModRM form."""
 
     def __init__(self, name, dims):
         self.t = t = Target(name)
@@ -437,18 +438,33 @@ class X86Stack(object):
         self.rex = XS_REX[t.mode][:dims["rex"]]
         self.modrm = [bytes.fromhex(m) for m in XS_MODRM[:dims["modrm"]]]
         self.ops = []
+        self.sse = []
         for cls in dims["ops"]:
             for o in XS_OPS[cls]:
                 forms = [b""] if cls == "string" else self.modrm
                 for m in forms:
                     self.ops.append(bytes.fromhex(o) + m + XS_TAIL)
-        self.stacks = [a + b + c + d + e for a in self.seg for b in self.opsz for c in self.adsz
-                       for d in self.mand for e in self.rex]
+                    self.sse.append(cls == "sse")
+        self.stacks = []
+        self.amb = []
+        for a in self.seg:
+            for b in self.opsz:
+                for c in self.adsz:
+                    for d in self.mand:
+                        for e in self.rex:
+                            self.stacks.append(a + c + b + d + e)
+                            self.amb.append(bool(b and d))
         self.group = len(self.ops)
         self.n = len(self.stacks) * len(self.ops)
 
     def item(self, i):
+        """None (hole) for 66 + F3/F2/LOCK in front of an SSE opcode: mn_x86.add_pre_dis_info of a 66-mandatory class
+        resets the *shared* pre_dis_info['opmode'] before it rejects the candidate, and the candidates are tried in
+        set order (hash = address of the class), so what such bytes decode to (WORD/DWORD operand) depends on the
+        history of the process - not a replayable case."""
         si, oi = divmod(i, len(self.ops))
+        if self.amb[si] and self.sse[oi]:
+            return None
         return self.stacks[si] + self.ops[oi]
 
 
